@@ -485,7 +485,9 @@ class Parser:
 
     def _at_rvalue(self, include_reg=True) -> bool:
         token = self.current_token
-        if token.is_mark('{', '['):
+        if token.is_mark('{', '[', '-'):
+            # No command starts with a minus sign: it can only be the sign of
+            # a number.
             return True
         if token.token_type in (
                 TokenTypes.LITERAL_STRING,
